@@ -124,6 +124,40 @@ DefCases == <<
    decls |-> [cv |-> "DeclClassVar", tv |-> "DeclThisVarForward", p |-> "DeclParam", lv |-> "DeclLocalVar", it |-> "DeclLocalVar", self |-> "DeclThisParam"]]
 >>
 
+\* programs exercising every grammar alternative with an EMPTY optional slot or an anonymous kept token: the
+\* stored form of a tree (C15) must preserve the placeholders and their order
+OptionalSlots == <<
+  "def f() -> None:\n\treturn\n",
+  "def f(a: int, b: int = 1) -> int:\n\treturn a\n",
+  "class A:\n\tpass\n",
+  "class A(B, C):\n\tpass\n",
+  "def f(a: int) -> int:\n\tif a > 0:\n\t\treturn 1\n\treturn 0\n",
+  "def f(xs: list[int]) -> list[int]:\n\treturn xs[1:]\n",
+  "def f(xs: list[int]) -> list[int]:\n\treturn xs[:2]\n",
+  "def f(xs: list[int]) -> list[int]:\n\treturn xs[::2]\n",
+  "def f(xs: list[int]) -> list[int]:\n\treturn xs[1:2:3]\n",
+  "x = []\ny = {}\nz = ()\n",
+  "x = [1, 2,]\ny = {'a': 1,}\nz = (1,)\n",
+  "def f(a: int) -> int:\n\t'''doc'''\n\treturn a\n",
+  "def f(*args: int, **kwargs: str) -> None:\n\tpass\n",
+  "@deco\ndef f() -> None:\n\tpass\n",
+  "@deco(1, k=2)\nclass A:\n\tn: int\n",
+  "x: int = 0\ny: str\n",
+  "from a.b import c, d as e\nimport os\n",
+  "def f(a: int) -> int:\n\ttry:\n\t\treturn a\n\texcept ValueError:\n\t\treturn 0\n",
+  "def f(a: int) -> int:\n\tfor i in range(a):\n\t\tpass\n\telse:\n\t\tpass\n\treturn a\n",
+  "x = lambda: 1\ny = lambda a, b: a\n",
+  "def f(d: dict[str, int]) -> list[str]:\n\treturn [k for k in d]\n",
+  "def f(d: dict[str, int]) -> dict[str, int]:\n\treturn {k: v for k, v in d.items() if v}\n",
+  "x = a if b else c\ny = not a\nz = -a\n",
+  "def f(a: int) -> None:\n\traise\n",
+  "def f() -> None:\n\tg(1, *xs, k=2, **kw)\n",
+  "x = a.b.c(1)[2].d\n",
+  "# comment only\nx = 1  # trailing\n",
+  "x = 'a' \"b\"\n"
+>>
+EmitSlots == \A i \in DOMAIN OptionalSlots : PrintT("SLOT " \o ToJson([id |-> i, text |-> OptionalSlots[i]]))
+
 Case(s) == [text |-> FuncText(s, "f"), canon |-> Canon(s), lines |-> Count(s)]
 Emit == \A s \in Stmts : PrintT("STMT " \o ToJson(Case(s)))
 EmitDefs == \A i \in DOMAIN DefCases : PrintT("DEF " \o ToJson(DefCases[i]))
